@@ -46,7 +46,8 @@ def gen(rng, tier, i):
             inj.append({'cycle': cy, 'line': rng.randrange(1 << 16), 'mask': mask_kind, 'mask_seed': rng.randrange(1 << 16),
                         'vals': [rng.randrange(8) for _ in range(rng.randint(1, 5))]})
     return {'script': script, 'm': m, 'sims': sims, 'cycles': cycles, 'vals': [rng.randrange(8) for _ in range(rng.randint(3, 23))],
-            'knobs': {'c_reuse': rng.random() < 0.4, 'strip_forks': rng.random() < 0.4}, 'api': rng.choice(['explicit', 'cycle', 'cycle']), 'inj': inj}
+            'knobs': {'c_reuse': rng.random() < 0.4, 'strip_forks': rng.random() < 0.4}, 'api': rng.choice(['explicit', 'cycle', 'cycle']), 'inj': inj,
+            'cb_style': rng.choice(['function', 'function', 'falsy_object', 'partial', 'method'])}
 
 
 def evaluated_lines(circuit, strip):
@@ -163,7 +164,7 @@ def execute(case):
     events0 = []
     t = lsim.make(c, sims, m, knobs['c_reuse'], knobs['strip_forks'])
     lsim.assign(t, mva)
-    t_in, t_out = drive(t, lambda line, view: events0.append(operator.index(line)), case['api'])
+    t_in, t_out = drive(t, wrap_callback(lambda line, view: events0.append(operator.index(line)), case.get('cb_style', 'function')), case['api'])
     res.probe('untouched_callback_run')
     for cy in range(cycles):
         if not np.array_equal(t_out[cy], ref_out[cy]):
@@ -192,7 +193,7 @@ def execute(case):
             for lane in range(sims):
                 if mask[lane]: set_lane(view, lane, vals[lane], mdim)
             res.fault('F-inj')
-    run_in, run_out = drive(sim, cb, case['api'])
+    run_in, run_out = drive(sim, wrap_callback(cb, case.get('cb_style', 'function')), case['api'])
     res.log.add('ev', [(cy, li) for cy, li, _ in events][:400])
     res.log.add_array('out', run_out[-1])
     # ---- history checks
@@ -272,6 +273,23 @@ def execute(case):
         if cy > 0 and inj_here: changed = changed or not np.array_equal(run_out[cy], ref_out[cy])
     if changed: res.probe('injection_changed_result'); res.nontrivial = True
     return res
+
+
+def wrap_callback(f, style):
+    """Any callable is a legal callback: a plain function, a functools.partial, a bound method, or a callable object whose
+    truth value happens to be False (e.g. an empty list subclass used as recorder)."""
+    if style == 'falsy_object':
+        class Recorder(list):
+            def __call__(self, line, view): return f(line, view)
+        return Recorder()
+    if style == 'partial':
+        import functools
+        return functools.partial(lambda tag, line, view: f(line, view), 'tag')
+    if style == 'method':
+        class Holder:
+            def cb(self, line, view): return f(line, view)
+        return Holder().cb
+    return f
 
 
 def lanes_of_s(s1, mdim, sims):
